@@ -226,14 +226,17 @@ def c14(tier):
              + mk("deadline-race", 150 if q else 5000, s + 2, "wide", rounds=6)
              + mk("deadline-race", 100 if q else 5000, s + 3, "tiny", rounds=6)
              + mk("deadline-race", 100 if q else 5000, s + 4, "one", rounds=6)
-             + mk("deadline-grid", 40 if q else 1500, s + 5, "odd", n=40) + mk("deadline-race", 60 if q else 2500, s + 6, "odd", rounds=6))
+             + mk("deadline-grid", 40 if q else 1500, s + 5, "odd", n=40) + mk("deadline-race", 60 if q else 2500, s + 6, "odd", rounds=6)
+             # late replies for callers that have gone since, while a successor connection (released memory handed out again at once
+             # in half of the runs) waits for its own answers
+             + mk("deadline-successor", 60 if q else 2500, s + 7, "default", reuse=True) + mk("deadline-successor", 40 if q else 1500, s + 8, "default", reuse=False))
     res = run_cases(cases)
     return report("C14", "exploration", res,
                   "timeout grid (absent, 0, 1e-4, 0.000999, 0.001, 0.0015, ..., 1e30, string, bool, null, negative, object) x {request, element, both, neither}: the "
                   "value handed to timerfd_settime is compared with floor(t*1e9) by precedence request > element > default; the virtual clock is stepped to "
                   "deadline-1ns (no answer allowed), to the deadline (answer due), late replies must have no effect; race batches built explicitly: expiry and "
                   "{owner reply, caller FIN/RST, owner FIN/RST} harvested in ONE epoll batch in both orders (batch sizes 1, 2, 10, 64): exactly one answer, no "
-                  "sanitizer report; distinct = (timeout types, outcome) and (race kind, order) signatures",
+                  "sanitizer report; 'successor' histories: the owner answers requests whose caller timed out or left, while a new connection of the same kind that numbers its requests the same way waits for its own answers (with and without immediate reuse of released memory); distinct = (timeout types, outcome) and (race kind, order) signatures",
                   t0, tier, SIM_ASSUME, min_events={"race_batches": 200, "timer_expiries": 200, "timers_armed": 1000})
 
 
@@ -251,13 +254,15 @@ def c08(tier):
     cases += mk("access", 60 if q else 3000, s + 8, "default", lane="msan", n_ops=50)
     cases += mk("localadd", 20 if q else 400, s + 9, "localadd")
     cases += mk("localadd", 5 if q else 50, s + 10, "default")
+    # 15 .. 40 sessions of ONE account at the same time (some were another account before): rights follow the answers
+    cases += mk("manysessions", 40 if q else 1500, s + 11, "default") + mk("manysessions", 10 if q else 300, s + 12, "default", lane="msan")
     res = run_cases(cases)
     return report("C08", "exploration", res,
                   "generated credential files (1-6 users x group subsets of 1..32 groups, admin/readonly, SHA-512/SHA-256/MD5 hashes), elements with generated "
                   "access declarations, sequences of authenticate (right, wrong, unknown, repeated, as another user) / fetch / get / set / call / passwd on raw, "
                   "unix and WebSocket peers; reference model with groups decides visibility (replicas, get results) and set/call rights; allocator fill bytes "
                   "0x00 / 0xff / 0xa5 / seeded, heap pre-conditioning and a MemorySanitizer lane (any branch on an uninitialised group word is reported) stand in for 'every value of uninitialised memory'; all passwords are unique tokens "
-                  "searched in every output byte and log line; local-only add from loopback v4/v6/mapped/unix vs remote origins; distinct = (authenticated, has "
+                  "searched in every output byte and log line; 15..40 simultaneous sessions of one account, some of which were another account before (whether one more session is accepted is the daemon's business; every session's visibility, get, set and call rights follow the authenticate answers it got); local-only add from loopback v4/v6/mapped/unix vs remote origins; distinct = (authenticated, has "
                   "groups, transport) and origin signatures",
                   t0, tier, SIM_ASSUME + ["uninitialised memory is explored through allocator fill bytes and recycled chunks, not symbolically"],
                   min_events={"leak_scans": 100, "replica_checks": 1000, "req_authenticate": 500})
